@@ -71,6 +71,20 @@ def gen_histogram(repo):
     out.append(f'def histConfigRecordMinMaxDefault : Bool := {d}\n')
     if not re.search(r'std::lower_bound\s*\(\s*boundaries\.begin\(\)\s*,\s*boundaries\.end\(\)\s*,\s*value\s*\)', hh):
         raise X.ExtractError('BucketBinarySearch is no longer std::lower_bound(boundaries.begin(), boundaries.end(), value)')
+    # the int64_t overload: std::lower_bound with the exact comparator BucketBoundaryLessThan(double, int64_t)
+    ov = X._one(r'size_t\s+BucketBinarySearch\s*\(\s*int64_t\s+value\s*,[^)]*\)\s*\{(.*?)\n\}', hh,
+                'BucketBinarySearch(int64_t, ...) overload (exact comparison of int64 values with double boundaries)').group(1)
+    cm = X._one(r'std::lower_bound\s*\(\s*boundaries\.begin\(\)\s*,\s*boundaries\.end\(\)\s*,\s*value\s*,\s*(\w+)\s*\)', ov,
+                'BucketBinarySearch(int64_t): std::lower_bound with a comparator').group(1)
+    cb = X._one(r'bool\s+' + cm + r'\s*\(\s*double\s+(\w+)\s*,\s*int64_t\s+(\w+)\s*\)\s*(?:noexcept\s*)?\{(.*?)\n\}', hh, f'comparator {cm}')
+    bn, vn, body = cb.group(1), cb.group(2), cb.group(3)
+    hi = X._one(r'if\s*\(\s*!\s*\(\s*' + bn + r'\s*<\s*([-+0-9.eE]+)\s*\)\s*\)\s*\{?\s*return\s+false\s*;', body, f'{cm}: upper guard').group(1)
+    lo = X._one(r'if\s*\(\s*' + bn + r'\s*<\s*([-+0-9.eE]+)\s*\)\s*\{?\s*return\s+true\s*;', body, f'{cm}: lower guard').group(1)
+    if not re.search(r'return\s+static_cast<\s*int64_t\s*>\s*\(\s*(?:std::)?floor\s*\(\s*' + bn + r'\s*\)\s*\)\s*<\s*' + vn + r'\s*;', body):
+        raise X.ExtractError(f'{cm}: the in-range branch is no longer static_cast<int64_t>(floor(boundary)) < value')
+    out.append('/-- guards of the exact comparator of the int64_t overload of BucketBinarySearch -/\n'
+               f'def histLongCmpHi : Rat := {lean_rat(_double_literal(hi))}\n'
+               f'def histLongCmpLo : Rat := {lean_rat(_double_literal(lo))}\n')
     out.append('/-- finite range of an IEEE binary64 -/\n' f'def dblMax : Rat := {lean_rat(DBL_MAX)}\n')
     out.append('end Otel.Gen\n')
     return '\n'.join(out)
